@@ -227,6 +227,12 @@ impl<'a, B: SwitchEndian + ByteOrder> Buffer<'a, B> {
     /// * `size`: The size of the chunk to be taken from the original buffer.
     pub fn switch_endian_chunk(&mut self, size: usize) -> GDResult<Buffer<'a, B::Output>> {
         let old_cursor = self.cursor;
+        if size > self.remaining_length() {
+            return Err(PacketUnderflow.context(format!(
+                "Chunk size {size} was larger than remaining bytes {}",
+                self.remaining_length()
+            )));
+        }
         self.move_cursor(size as isize)?;
 
         Ok(Buffer {
